@@ -39,6 +39,9 @@ OClose(c, d, abortive) ==     \* (closing twice is harmless; the first close of 
 OEof(c, d) ==
   /\ ~oeof[c][d] /\ (oclosed[c][d] \/ oclosed[c][OtherDir(d)])
   /\ ((ofirst[c] = d /\ ~oabort[c]) => orcvd[c][d] = osent[c][d])
+  \* a peer that closed first and gracefully has only stopped SENDING: it keeps reading, and sees the end of the
+  \* other direction only after that direction's source has closed too and everything it wrote has arrived
+  /\ ((ofirst[c] # "" /\ ofirst[c] # d /\ ~oabort[c]) => (oclosed[c][d] /\ orcvd[c][d] = osent[c][d]))
   /\ oeof' = [oeof EXCEPT ![c][d] = TRUE] /\ UNCHANGED <<osent, orcvd, oclosed, ofirst, oabort>>
 ONext == \E c \in Conn, d \in Dirs : (\E n \in 1..4 : OWr(c, d, n) \/ ORd(c, d, n)) \/ OClose(c, d, FALSE) \/ OClose(c, d, TRUE) \/ OEof(c, d)
 OSpec == OInit /\ [][ONext]_ovars
@@ -49,6 +52,7 @@ NoLossOnClose == \A c \in Conn, d \in Dirs : (oeof[c][d] /\ ofirst[c] = d /\ ~oa
 \* the end-of-scenario condition used on recorded runs
 Settled(judgeClose, serverOpen) ==
   /\ (judgeClose => \A c \in Conn, d \in Dirs : ofirst[c] = d => oeof[c][d])
-  /\ \A c \in Conn, d \in Dirs : ((ofirst[c] = "" \/ ofirst[c] = d) /\ ~oabort[c]) => orcvd[c][d] = osent[c][d]
+  /\ \A c \in Conn, d \in Dirs : ~oabort[c] => orcvd[c][d] = osent[c][d]    \* (graceful closers keep reading)
+  /\ (judgeClose => \A c \in Conn, d \in Dirs : (ofirst[c] # "" /\ ofirst[c] # d /\ ~oabort[c] /\ oclosed[c][d]) => oeof[c][d])
   /\ (judgeClose => serverOpen = 0)
 =============================================================================
